@@ -118,3 +118,17 @@ Definition pm_run (c : sx) : sx :=
 Definition pm_names (c : sx) : sx :=
   let FO := flocq_ops [] in
   SL [SZ 0; sx_list (fun e : str * sem => sx_str (fst e)) full_registry].
+
+(* Generic checker for "implementation = reference" properties whose reference IS the
+   proven model: the observed result must equal the model's result on the same case. *)
+Definition pm_run_check (c : sx) : sx :=
+  match c with
+  | SL [case; observed] =>
+      let m := pm_run case in
+      if sx_eqb m sx_bad then sx_bad
+      else match m with
+           | SL (SZ 2 :: _) => m              (* libm value still missing: the caller resolves it and retries *)
+           | _ => sx_bool (sx_eqb m observed)
+           end
+  | _ => sx_bad
+  end.
